@@ -1,13 +1,33 @@
 #!/bin/bash
 # usage: try_seed.sh <tag> [props...]  - apply seeded patch to /repo, run checks, undo. Prints which checks fire.
+# Only NEW findings relative to the clean tree are shown (keys not present in the clean run).
+trap '' PIPE
 tag=$1; shift
 p=/verif/seeded/$tag/patch.diff
 [ -f $p ] || p=/tmp/seed/$tag/patch.diff
 props="$@"
-[ -n "$props" ] || props=$(ls /verif/sa/props | grep -o 'c[0-9]*' | tr a-z A-Z | sort -u)
-git -C /repo apply $p || { echo "cannot apply $p"; exit 2; }
+[ -n "$props" ] || props=$(ls /verif/sa/props | grep -o '^c[0-9]*' | tr a-z A-Z | sort -u)
+out=/tmp/try_seed_$$.txt; : > $out
+if [ -n "$(git -C /repo status --short)" ]; then echo "/repo is dirty, refusing"; exit 2; fi
+git -C /repo apply $p || { echo "cannot apply $p"; git -C /repo checkout -- .; exit 2; }
 for c in $props; do
-  out=$(cd /verif && /venv/bin/python check.py $c 2>&1); rc=$?
-  if [ $rc -ne 0 ]; then echo "== $c rc=$rc"; echo "$out" | grep -E "violated|ANALYSIS-ERROR" | head -5; fi
+  (cd /verif && /venv/bin/python check.py $c > /tmp/try_seed_$$.$c 2>&1); rc=$?
+  if [ $rc -ne 0 ]; then
+     grep -E "violated|ANALYSIS-ERROR" /tmp/try_seed_$$.$c | sed "s/^/$c rc=$rc: /" >> $out
+  fi
+  rm -f /tmp/try_seed_$$.$c
 done
 git -C /repo checkout -- .
+# subtract the clean-tree baseline (same props, clean tree)
+base=/tmp/try_seed_base_$$.txt; : > $base
+for c in $props; do
+  (cd /verif && /venv/bin/python check.py $c 2>&1 | grep -E "violated|ANALYSIS-ERROR" | sed -E "s/ at [^ ]+:[0-9]*://" >> $base)
+done
+sed -E "s/ at [^ ]+:[0-9]*://" >> $base)
+  done
+fi
+sed -E "s/ at [^ ]+:[0-9]*://" $out | sed -E 's/^C[0-9]+ rc=[0-9]: //' | sort -u > $out.n
+sort -u $base > $base.s
+new=$(comm -23 $out.n $base.s)
+if [ -n "$new" ]; then echo "$tag: DETECTED"; echo "$new" | cut -c1-230 | head -6; else echo "$tag: missed"; fi
+rm -f $out $out.n $base $base.s
